@@ -23,9 +23,44 @@ def values(times, sp, entry, seed):
     return v
 
 
+BASE_DAY = pd.Timestamp("2021-03-01")
+BASE_MONTH = pd.Period("2001-01", freq="M")
+
+
+def make_index(lo, hi, kind):
+    """Index kinds: 0 RangeIndex, 1 integer Index, 2 daily DatetimeIndex carrying its freq, 3 the same days assembled
+    from individual time stamps (no freq attribute, as after reading a file), 4 monthly PeriodIndex."""
+    if kind == 0:
+        return pd.RangeIndex(lo, hi + 1)
+    if kind == 1:
+        return pd.Index(np.arange(lo, hi + 1))
+    if kind == 2:
+        return pd.date_range(BASE_DAY + pd.Timedelta(days=lo), periods=hi - lo + 1, freq="D")
+    if kind == 3:
+        idx = pd.DatetimeIndex([pd.Timestamp(str((BASE_DAY + pd.Timedelta(days=k)).date())) for k in range(lo, hi + 1)])
+        assert idx.freq is None
+        return idx
+    return pd.period_range(BASE_MONTH + lo, periods=hi - lo + 1, freq="M")
+
+
+def pos(label):
+    """Integer time position of an index label of any kind of make_index."""
+    if isinstance(label, pd.Timestamp):
+        return int((label - BASE_DAY).days)
+    if isinstance(label, pd.Period):
+        return int((label - BASE_MONTH).n)
+    return int(label)
+
+
+def index_kind(seed, kind):
+    # calendar indices only where the transformer's arithmetic depends on the time unit (the deseasonalizers align
+    # the seasonal pattern by the distance from the training start measured in the index's unit)
+    return seed % 5 if kind in ("deseason_add", "deseason_mul", "cond_deseason") else seed % 2
+
+
 def ser(lo, hi, sp, entry, seed, origin, kind):
     times = list(range(lo, hi + 1))
-    idx = pd.RangeIndex(lo + origin, hi + origin + 1) if kind == 0 else pd.Index(np.arange(lo + origin, hi + origin + 1))
+    idx = make_index(lo + origin, hi + origin, kind)
     v = values(times, sp, entry, seed)
     if entry.get("frame"):      # multivariate input (two columns)
         return pd.DataFrame({"a": v, "b": 100.0 - 0.5 * v + np.cos(np.asarray(times, dtype=float))}, index=idx)
@@ -40,6 +75,12 @@ def close(a, b):
 def execute(entry, cfg, origin, seed, idxkind):
     est = entry["factory"]()
     n, sp = cfg["n"], cfg["sp"]
+    zkind = idxkind
+    if idxkind == 3:
+        # the library takes the time unit from the index it was fitted / updated on, so that index must carry its
+        # freq (a DatetimeIndex without one is not a supported training index in 0.6.0: the horizon arithmetic
+        # needs it as well); only the stretch handed to transform / inverse_transform comes without
+        idxkind = 2
     train = ser(0, n - 1, sp, entry, seed, origin, idxkind)
     if seed % 4 == 2:
         # the same object was fitted before, on a stretch that starts one time point later: nothing of it may survive
@@ -62,7 +103,7 @@ def execute(entry, cfg, origin, seed, idxkind):
                 hi += 2
             est.update(ser(hi + 1, hi + b, sp, entry, seed, origin, idxkind), update_params=up)
             hi += b
-    z = ser(cfg["lo"], cfg["lo"] + cfg["len"] - 1, sp, entry, seed, origin, idxkind)
+    z = ser(cfg["lo"], cfg["lo"] + cfg["len"] - 1, sp, entry, seed, origin, zkind)
     z0 = z.copy()
     out = est.transform(z)
     res = {"est": est, "z": z0, "out": out, "train": train}
@@ -92,8 +133,9 @@ def observe(entry, cfg, seed):
     warnings.filterwarnings("ignore")
     origin = cfg["origin"]
     try:
-        r = execute(entry, cfg, origin, seed, seed % 2)
-        o = {"index": [int(i) - origin for i in r["out"].index] if entry["same_index"] else [],
+        ik = index_kind(seed, cfg["kind"])
+        r = execute(entry, cfg, origin, seed, ik)
+        o = {"index": [pos(i) - origin for i in r["out"].index] if entry["same_index"] else [],
              "phases": [], "inv_phases": [], "rt": [], "rt_index": True}
         deseason = cfg["kind"] in ("deseason_add", "deseason_mul", "cond_deseason")
         if deseason:
@@ -105,20 +147,20 @@ def observe(entry, cfg, seed):
             o["rt"] = [bool(np.all((np.abs(A[i] - B[i]) <= 1e-7 * np.maximum(1, np.abs(B[i]))) | ~np.isfinite(C[i])))
                        for i in range(len(B))] if A.shape == B.shape else [False] * len(B)
             o["rt_index"] = bool(list(zb.index) == list(z.index)) and len(zb) == len(z)
-        train = ser(0, cfg["n"] - 1, cfg["sp"], entry, seed, origin, seed % 2)
+        train = ser(0, cfg["n"] - 1, cfg["sp"], entry, seed, origin, 2 if ik == 3 else ik)
         first = entry["factory"]()
         if seed % 2 == 0:      # the object has been through fit_transform before, on another stretch
-            first.fit_transform(ser(1, cfg["n"] + 2, cfg["sp"], entry, seed + 9, origin, seed % 2))
+            first.fit_transform(ser(1, cfg["n"] + 2, cfg["sp"], entry, seed + 9, origin, 2 if ik == 3 else ik))
         a = first.fit_transform(train.copy())
         b = entry["factory"]().fit(train.copy()).transform(train.copy())
         o["fteq"] = bool(list(a.index) == list(b.index) and close(a.values, b.values))
-        r2 = execute(entry, cfg, origin + 7, seed, seed % 2)
+        r2 = execute(entry, cfg, origin + 7, seed, ik)
         sh = 7 if entry["same_index"] else 0     # outputs not indexed by time (lags) keep their index
-        o["shift"] = bool([int(i) - sh for i in r2["out"].index] == [int(i) for i in r["out"].index]
+        o["shift"] = bool([pos(i) - sh for i in r2["out"].index] == [pos(i) for i in r["out"].index]
                           and close(r2["out"].values, r["out"].values))
         o["noupd"] = True
         if cfg["ups"] and not (seed % 3 == 1 and cfg["kind"] != "other"):
-            r0 = execute(entry, dict(cfg, ups=[]), origin, seed, seed % 2)
+            r0 = execute(entry, dict(cfg, ups=[]), origin, seed, ik)
             o["noupd"] = bool(list(r0["out"].index) == list(r["out"].index) and close(r0["out"].values, r["out"].values))
         return o
     except Exception as e:
